@@ -200,16 +200,26 @@ def _worker(task):
 
 def _standalone(task):
     """the standalone simple/shallow/deep rounding decorators against the same oracle"""
-    tier, name, tol = task
+    tier, name, tol = task[:3]
+    via = task[3] if len(task) > 3 else 'direct'
     from klepto import rounding
     res = {'counts': collections.Counter(), 'violations': [], 'samples': [], 'nontrivial': 0, 'outcomes': [],
            'config': task}
     deco = getattr(rounding, name)
     depth = {'simple_round': 0, 'shallow_round': 1, 'deep_round': None}[name]
 
-    @deco(tol=tol)
+    d = deco(tol=tol)
+    # the configured decorator object itself may have been pickled / copied (it travels inside every cached function)
+    if via == 'dill':
+        import dill
+        d = dill.loads(dill.dumps(d))
+    elif via == 'deepcopy':
+        d = copy.deepcopy(d)
+
+    @d
     def ident(*args, **kwds):
         return (args, kwds)
+    name = name if via == 'direct' else '%s[%s]' % (name, via)
     for kind, v in values(tier):
         for form, a, k in (('pos', (v,), {}), ('kw', (), {'x': v})):
             res['counts']['evaluations'] += 1
@@ -229,7 +239,7 @@ def _standalone(task):
                                             '%s(tol=%r): call %r raised %r' % (name, tol, (a, k), e),
                                             {'standalone': list(task), 'value': repr(v), 'form': form}))
                 continue
-            lenient = name == 'shallow_round' and (isinstance(v, dict) or is_nt(v)) and canon(got) == canon((a, k))
+            lenient = name.startswith('shallow_round') and (isinstance(v, dict) or is_nt(v)) and canon(got) == canon((a, k))
             # (the statement does not say whether the one-level decorator looks inside mappings /
             #  records: handing them over untouched is accepted, mangling them is not)
             if canon(got) != canon(want) and not lenient:
@@ -293,7 +303,8 @@ def run(tier, seed):
                 tasks.append((tier, mod, alg, tol, deep, 'string', True))
     for name in ('simple_round', 'shallow_round', 'deep_round'):
         for tol in TOLS:
-            tasks.append(('standalone', tier, name, tol))
+            for via in ('direct', 'dill', 'deepcopy'):
+                tasks.append(('standalone', tier, name, tol, via))
     for res in pool.run_configs(_dispatch, tasks, seed=seed):
         rep.merge(res)
     rep.extra['values'] = len(values(tier))
